@@ -10,6 +10,7 @@
 -/
 import Jb.Proofs.Engine
 import Jb.Proofs.Gv
+import Jb.Model.Synth
 
 set_option linter.unusedSectionVars false
 
@@ -61,5 +62,30 @@ theorem conv_gv_keeps_ineligible (par : List K) (sw : List Bool) (gvLen : Nat) (
     (hlen : par.length = sw.length) (hi : sw[i]? = some false) :
     (convGv par sw gvLen gm)[i]? = par[i]? :=
   convGv_ineligible par sw gvLen gm i hlen hi
+
+/-- **GV-off contexts → per-state switch.** Whenever `Models::gv` yields a switch, state `k` of label `j` is
+    GV-eligible exactly when label `j` matches none of the voice's GV-off patterns — wherever in the
+    utterance the label stands. -/
+theorem switch_is_outside_gv_off [FromFile K] (voices : List Hts.ParsedVoice) (v0 : Hts.ParsedVoice) (rest : List Hts.ParsedVoice)
+    (hv : voices = v0 :: rest) (iw : IW K) (labels : List (List Char)) (nstate i : Nat)
+    (gvp : List (MeanVari K)) (sw : List Bool)
+    (h : Synth.modelsGv voices iw labels nstate i = .ok (some (gvp, sw))) :
+    sw = (labels.map fun l => List.replicate nstate (!(Hts.questionTest v0.global.gvOff l))).flatten := by
+  subst hv
+  unfold Synth.modelsGv at h
+  simp only at h
+  split at h
+  · cases h
+  · split at h
+    · cases h
+    · cases labels with
+      | nil => cases h
+      | cons l0 ls =>
+        simp only at h
+        cases hb : Synth.blend (iw.gv.getD i []) ((v0 :: rest).map fun v =>
+            (Synth.streamOf v i).bind fun s => s.gv.bind fun g => Synth.select (α := K) g 2 l0) with
+        | ok mp => rw [hb] at h; simp only [Outcome.map] at h; cases h; rfl
+        | err e => rw [hb] at h; simp [Outcome.map] at h
+        | panic s => rw [hb] at h; simp [Outcome.map] at h
 
 end Jb.C12
